@@ -169,7 +169,16 @@ def gen_api(rng):
         c['bound_after_assert'] = 1
     r = rng.random()
     uv = [V('R%d' % i) for i in range(4)]
-    if r < 0.4:
+    if r < 0.2:
+        # an older enumeration is open, a retract of the same fact is suspended at its answer (its pattern more
+        # instantiated, or its variables bound by the caller afterwards): the older enumeration must still see the
+        # fact as it was stored
+        hist.insert(0, ('assert_fact', C('p', A('first')), True))
+        pat = [pattern(rng, a, uv[:2]) for a in fact[2]]
+        hist += [('start', 1, 'p', [V('E1')]), ('next', 1), ('start', 2, 'retract', [C('p', *pat)]), ('next', 2)]
+        hist += [('next', 1), ('next', 1), ('close', 2), ('close', 1)]
+        c['retract_suspended_under_older_enumeration'] = 1
+    elif r < 0.4:
         # two simultaneously suspended enumerations constraining the fact differently
         p1 = [pattern(rng, a, uv[:2]) for a in fact[2]]
         p2 = [pattern(rng, a, uv[2:]) for a in fact[2]]
@@ -188,7 +197,7 @@ def gen_api(rng):
 
 
 def judge(ctx, hist, c, nt):
-    d = H.compare_history(ctx['real'], hist, budgetA=20000)
+    d = H.compare_history(ctx['real'], hist, budgetA=20000, atom_mode=_atom_mode(hist, c))
     r = {'c': c, 'nt': False, 'key': H.normalise(hist)}
     if d['status'] == 'discard':
         r['discard'] = d['reason']
@@ -239,3 +248,13 @@ def run_corpus(ctx, item):
 def replay(ctx, w):
     from ..diff import totuple
     return judge(ctx, fix_history([totuple(s) for s in w['history']]), {}, True)
+
+
+def _atom_mode(hist, c):
+    """where the host program's atom objects come from (same terms in every mode): made at the time of use, made once
+    and held (also across clear()), or made by another engine"""
+    import hashlib
+    k = int(hashlib.md5(repr(hist).encode('utf8', 'backslashreplace')).hexdigest(), 16) % 10
+    mode = 'fresh' if k < 5 else ('held' if k < 8 else 'other')
+    c['atoms_' + mode] = 1
+    return mode
